@@ -368,6 +368,57 @@ func (ch c20) Run(c *core.Ctx) {
 			cl2.Finish()
 		}
 	}
+	// a handler that removes comments before it counts: what it declares is ParseParameters of what is left,
+	// and that - none at all, for a statement whose only markers sit in a comment - is what Describe announces,
+	// on this connection and, for a plain statement parsed afterwards, on the next
+	if c.Batch == 3%nb && c.Begin(39600000) {
+		strip := func(q string) string {
+			for {
+				i := strings.Index(q, "--")
+				if i < 0 {
+					break
+				}
+				j := strings.IndexByte(q[i:], '\n')
+				if j < 0 {
+					q = q[:i]
+					break
+				}
+				q = q[:i] + q[i+j:]
+			}
+			for {
+				i := strings.Index(q, "/*")
+				j := strings.Index(q, "*/")
+				if i < 0 || j < i {
+					break
+				}
+				q = q[:i] + q[j+2:]
+			}
+			return q
+		}
+		stripProg := &hs.Prog{Stmts: []*hs.Stmt{{ID: "pp", ParseParams: true, Normalize: strip, Ops: []hs.Op{{K: "complete", Tag: "OK"}}}}}
+		for round := 0; round < 2; round++ {
+			cl4 := hs.NewClient(env.Dial(&hs.Sess{Default: func(string) *hs.Prog { return stripProg }}))
+			if err := cl4.StartupOK("u"); err != nil {
+				break
+			}
+			for _, q := range []string{"select 1 -- $1 $2", "select $1 /* and $2, $3 */", "select 1 /* ? ? */", "select ? -- ?\n, ?", "select 1", "select 2 -- $9"} {
+				out, _ := cl4.Step(append(append(pg.Parse("", q, nil), pg.Describe('S', "")...), pg.Sync()...))
+				want, got := len(wire.ParseParameters(strip(q))), -1
+				for _, m := range mustMsgs(out) {
+					if m.T == 't' {
+						got = len(m.OIDs)
+					}
+				}
+				c.Eval("comment-stripping handler "+q, true)
+				if got != want {
+					c.Violate("describe-count", "Describe does not announce the number of parameters the handler declared from its ParseParameters call (a handler that counts after removing comments)", fmt.Sprintf("query %q: the handler declared ParseParameters(%q) = %d parameter(s), Describe announced %d; reply %s", q, strip(q), want, got, replyKinds(out)), nil)
+					break
+				}
+				c.Count("describe_counts_compared", 1)
+			}
+			cl4.Finish()
+		}
+	}
 	// a server with every timeout this tree offers set short, and a parser that takes its time over some
 	// statements (it does not watch its context): whatever the server makes of the slow Parse - it waits, or it
 	// gives up and reports an error - the name belongs to the Parse that succeeded last, and Describe
